@@ -22,7 +22,9 @@ RULE = (
     "raw = x + m*s; NONE -> raw; TRUNCATE -> clip; MIRROR -> raw if inside, the single reflection if it lands inside, "
     "otherwise the folded value or a bound value is required. Checked on the evaluator rows and on reported perturbed_variables. "
     "Plus: three injected samplers with distinct designs and EVERY assignment of sampler ids to the variables (ids may skip "
-    "one) x boundary types: each variable is perturbed by its assigned sampler. Every case is non-trivial."
+    "one) x boundary types: each variable is perturbed by its assigned sampler; three variables with EVERY assignment of "
+    "absolute / relative types and distinct magnitudes and ranges, also with ONE validated GradientConfig object reused by "
+    "two configurations with different bounds. Every case is non-trivial."
 )
 ASSUMPTIONS = [
     "dyadic bounds/magnitudes/samples so that x + m*s is exact without a scaler (compared with ==); 1e-12 relative with a scaler",
@@ -207,17 +209,91 @@ def judge_multi(case: dict[str, Any]) -> Judgement:
     return j
 
 
+V3_BOUNDS = ([-1.0, 0.0, -4.0], [3.0, 8.0, 12.0])
+V3_MAGS = [0.125, 0.25, 0.0625]
+V3_DESIGN = [[1.0, -2.0, 0.5], [-0.5, 0.25, 3.0]]
+
+
+def expected_v3(x: list[float], ptypes: list[int], lb: list[float], ub: list[float]) -> list[list[float]]:
+    out = []
+    for row in V3_DESIGN:
+        vals = []
+        for v in range(3):
+            m = V3_MAGS[v] * ((ub[v] - lb[v]) if ptypes[v] == 2 else 1.0)
+            raw = x[v] + m * row[v]
+            vals.append(min(max(raw, lb[v]), ub[v]))  # TRUNCATE_BOTH
+        out.append(vals)
+    return out
+
+
+def run_v3(config_dict: dict[str, Any]) -> Any:
+    from ropt.ensemble_evaluator import EnsembleEvaluator
+    from ropt.results import GradientResults
+
+    from ropt.config.enopt import EnOptConfig
+
+    config = EnOptConfig.model_validate(config_dict)  # no deep copy: a GradientConfig object in the dict stays shared
+    manager, _ = make_manager()
+    evaluator = TableEvaluator(lambda xx, r: [float(xx.sum())], 1, 0)
+    ens = EnsembleEvaluator(config, None, evaluator, manager)
+    results = ens.calculate(np.array(config.variables.initial_values), compute_functions=True, compute_gradients=True)
+    gres = next(item for item in results if isinstance(item, GradientResults))
+    return np.asarray(gres.evaluations.perturbed_variables)[0], evaluator.calls[0].variables[1:]
+
+
+def judge_v3(case: dict[str, Any]) -> Judgement:
+    """Three variables, EVERY assignment of absolute / relative perturbation types (distinct magnitudes and ranges)."""
+    j = Judgement()
+    ptypes = case["ptypes"]
+    lb, ub = V3_BOUNDS
+    x = [0.5, 2.0, 1.0]
+    samplers = [{"method": "verif/design", "options": {"design": V3_DESIGN}, "shared": True}]
+    gradient = {"number_of_perturbations": 2, "perturbation_magnitudes": V3_MAGS, "perturbation_types": ptypes, "boundary_types": 2}
+    base = {"variables": {"initial_values": x, "lower_bounds": lb, "upper_bounds": ub}, "gradient": gradient, "samplers": samplers}
+    try:
+        if case["reuse"]:
+            # ONE validated GradientConfig object is used by two configurations with different bounds
+            from ropt.config.enopt import GradientConfig
+
+            shared = GradientConfig.model_validate(dict(gradient))
+            lb2, ub2 = [b * 2 - 1 for b in lb], [b * 2 + 5 for b in ub]
+            first = run_v3({**base, "gradient": shared})
+            second = run_v3({"variables": {"initial_values": x, "lower_bounds": lb2, "upper_bounds": ub2}, "gradient": shared, "samplers": samplers})
+            runs = [("first", first, lb, ub), ("second", second, lb2, ub2)]
+        else:
+            runs = [("only", run_v3(base), lb, ub)]
+    except Exception as exc:  # noqa: BLE001
+        j.fail(f"v3-run-raised:{type(exc).__name__}", message=str(exc)[:200], ptypes=ptypes)
+        return j
+    for name, (reported, rows), lo, hi in runs:
+        exp = np.array(expected_v3(x, ptypes, lo, hi))
+        for where, mat in (("reported", reported), ("evaluator-rows", rows)):
+            if not np.array_equal(np.asarray(mat), exp):
+                sig = "magnitude-on-wrong-variable-or-stale" if not case["reuse"] else f"reused-gradient-config:{name}-configuration"
+                j.fail(sig, where=where, ptypes=ptypes, observed=mat, expected=exp)
+                return j
+    j.outcome = f"v3:{ptypes}:reuse={case['reuse']}"
+    return j
+
+
 def shards(tier: str, seed: int) -> list[dict[str, Any]]:
     n = len(SETTINGS)
     out = []
     for a in range(n):
         out.append({"a": a, "tier": tier, "seed": seed})
     out.append({"multi": True, "tier": tier, "seed": seed})
+    out.append({"v3": True, "tier": tier, "seed": seed})
     return out
 
 
 def run_shard(shard: dict[str, Any]) -> core.ShardResult:
     rec = Recorder(shard)
+    if shard.get("v3"):
+        for ptypes in itertools.product((1, 2), repeat=3):
+            for reuse in (False, True):
+                case = {"v3": True, "ptypes": list(ptypes), "reuse": reuse}
+                rec.add(("v3", ptypes, reuse), case, judge_v3(case))
+        return rec.finish()
     if shard.get("multi"):
         for assign in itertools.product((0, 1, 2), repeat=2):
             for btypes in itertools.product((1, 2, 3), repeat=2):
@@ -238,6 +314,8 @@ def run_shard(shard: dict[str, Any]) -> core.ShardResult:
 def run_case(case: dict[str, Any]) -> Judgement:
     if case.get("multi"):
         return judge_multi(case)
+    if case.get("v3"):
+        return judge_v3(case)
     return judge(case)
 
 
